@@ -7,6 +7,7 @@ import (
 	"fmt"
 	"os"
 	"runtime"
+	"runtime/debug"
 	"strconv"
 
 	"verif/harness/core"
@@ -22,6 +23,7 @@ func main() {
 	verif := flag.String("verif", "/verif", "verification root")
 	workers := flag.Int("workers", 0, "worker count (default GOMAXPROCS)")
 	flag.Parse()
+	debug.SetGCPercent(600)
 	core.VerifDir = *verif
 	seed := uint64(1)
 	if s := os.Getenv("VERIF_SEED"); s != "" {
